@@ -113,3 +113,42 @@ Qed.
 
 Lemma fqc_enqs_repeat n : fqc_enqs (repeat FcEnq n) = Z.of_nat n.
 Proof. induction n as [|n IH]; [reflexivity|]. cbn [repeat fqc_enqs fold_right]. fold (fqc_enqs (repeat FcEnq n)). lia. Qed.
+
+(* ---------- gcc pacer writer map ---------- *)
+Lemma gw_run_eq ops : forall st, gw_writers st = gw_bound st ->
+  gw_writers (fold_left gw_step ops st) = gw_bound (fold_left gw_step ops st).
+Proof.
+  induction ops as [|o t IH]; intros st H; cbn [fold_left]; [assumption|].
+  apply IH. destruct o; cbn [gw_step gw_writers gw_bound]; rewrite H; reflexivity.
+Qed.
+Lemma gw_run_NoDup ops : forall st, NoDup (gw_writers st) -> NoDup (gw_writers (fold_left gw_step ops st)).
+Proof.
+  induction ops as [|o t IH]; intros st H; cbn [fold_left]; [assumption|].
+  apply IH. destruct o; cbn [gw_step gw_writers]; [apply addset_NoDup, H|apply delset_NoDup, H].
+Qed.
+Lemma gw_unbind_releases st s : ~ In s (gw_writers (gw_step st (GwUnbind s))).
+Proof. cbn [gw_step gw_writers]. intros H. apply delset_In in H. tauto. Qed.
+Lemma gw_churn_releases n : forall a st, gw_writers st = [] -> gw_bound st = [] ->
+  let st' := fold_left gw_step (gw_churn a n) st in gw_writers st' = [] /\ gw_bound st' = [].
+Proof.
+  induction n as [|n IH]; intros a st Hr Hb; cbn [gw_churn fold_left]; cbv zeta; [split; assumption|].
+  apply IH; cbn [gw_step gw_bound gw_writers]; [rewrite Hr|rewrite Hb];
+    unfold addset, delset; cbn; rewrite Z.eqb_refl; reflexivity.
+Qed.
+Lemma gw_churn_keeps n : forall a st, (forall k, In k (gw_writers st) -> k < a) -> gw_bound st = [] ->
+  let st' := fold_left gw_step_keep (gw_churn a n) st in
+  zlen (gw_writers st') = zlen (gw_writers st) + Z.of_nat n /\ gw_bound st' = [].
+Proof.
+  induction n as [|n IH]; intros a st Hlt Hb; cbn [gw_churn fold_left]; cbv zeta; [split; [lia|assumption]|].
+  cbn [gw_step_keep gw_bound gw_writers].
+  match goal with |- context [fold_left gw_step_keep _ ?x] => set (st1 := x) end.
+  assert (Hm : memZ a (gw_writers st) = false).
+  { apply memZ_false. intros H. specialize (Hlt a H). lia. }
+  assert (Hb1 : gw_bound st1 = []).
+  { subst st1. cbn [gw_bound]. rewrite Hb. unfold addset, delset. cbn. rewrite Z.eqb_refl. reflexivity. }
+  assert (Hr1 : forall k, In k (gw_writers st1) -> k < a + 1).
+  { subst st1. cbn [gw_writers]. intros k Hk. apply addset_In in Hk.
+    destruct Hk as [->|Hk]; [lia|]. specialize (Hlt k Hk). lia. }
+  destruct (IH (a + 1) st1 Hr1 Hb1) as [I1 I2]. split; [|assumption].
+  rewrite I1. subst st1. cbn [gw_writers]. unfold addset. rewrite Hm, zlen_cons. lia.
+Qed.
